@@ -84,25 +84,34 @@ def inner(a, b):
 def check_work(run, ex, jnp, rng, tier):
     """<u, N(u)> in physical space vanishes on band-limited states for the energy-neutral forms (and <psi,N>, <omega,N> in 2D)."""
     for D in (1, 2, 3):
-        for N in ((16, 15) if D == 1 else (12, 9) if D == 2 else (8, 9)):
+        # grid sizes: odd, even, and divisible by 6 (where 2/3 (N//2) is an integer: the edge of the retained band is the first mode whose
+        # triple products would alias onto retained modes)
+        for N in ((16, 15, 18, 24) if D == 1 else (12, 9) if D == 2 else (8, 9, 6)):
             cut = (2 * (N // 2)) // 3 - 1
-            for term in ("conv_sc_cons", "conv_sc_non", "conv_mc_cons", "conv_mc_non", "vort2d", "rot3d"):
+            for term, limited in [(t, b) for t in ("conv_sc_cons", "conv_sc_non", "conv_mc_cons", "conv_mc_non", "vort2d", "rot3d") for b in (True, False)]:
                 if term.startswith("conv_mc") and D != 1:
                     continue
                 if (term == "vort2d" and D != 2) or (term == "rot3d" and D != 3):
                     continue
                 fun = nonlin.build(ex, jnp, term, D, N)
                 C = 3 if term == "rot3d" else 1 if "_sc_" in term or term == "vort2d" else D
-                u = zoo.band_limited(ex, jnp, zoo.white_noise(rng, C, D, N, amp=1.0), cut)
+                u = zoo.white_noise(rng, C, D, N, amp=1.0)
+                if limited:
+                    u = zoo.band_limited(ex, jnp, u, cut)
+                elif term == "rot3d":
+                    # the Leray projector needs a Nyquist-free field to be an orthogonal projection (C10's caveat)
+                    u = zoo.nyquist_free(ex, jnp, u)
+                # (not band-limited: the term dealiases its own input, N(u) = P Op(P u) with P the self-adjoint projection onto the retained
+                #  band, so <u, N(u)> = <P u, Op(P u)> vanishes for ARBITRARY states as long as the evaluation is alias-free)
                 if term == "rot3d":
                     u = np.asarray(ex.spectral.make_incompressible(jnp.asarray(u)))
                 uh = ex.fft(jnp.asarray(u))
                 Nu = np.asarray(ex.ifft(fun(uh), num_spatial_dims=D, num_points=N))
-                run.case(("work", term, D, N))
+                run.case(("work", term, D, N, limited))
                 scale = maxabs(u) * maxabs(Nu) + 1e-300
                 w = sum(inner(u[c], Nu[c]) for c in range(C))
                 if abs(w) > 1e-11 * scale:
-                    run.violation({"kind": "work", "term": term, "D": D, "N": N}, {"work": w, "scale": scale})
+                    run.violation({"kind": "work", "term": term, "D": D, "N": N, "state": "band-limited" if limited else "white noise"}, {"work": w, "scale": scale})
                 if term == "vort2d":
                     lap = -(np.asarray(ex.spectral.build_scaled_wavenumbers(D, 2 * np.pi / nonlin.omega(N), N)) ** 2).sum(axis=0)
                     psi_h = np.where(lap == 0, 0, np.asarray(uh)[0] / np.where(lap == 0, 1, lap))
@@ -146,6 +155,25 @@ def check_equilibria(run, ex, jnp, rng, tier):
                 del ok
 
 
+def check_equilibria_growth(run, ex, jnp):
+    """Constant equilibria with N(u*) != 0 for a ladder of growth*dt (the row-sum identities hold for every z, in particular where
+    |lambda(0) dt| equals the radius of the coefficient contour)."""
+    R = ex.stepper.reaction
+    for r, dt in ((1.0, 1.0), (2.0, 0.5), (4.0, 0.25), (0.999, 1.0), (1.0, 0.5), (3.0, 1.0), (0.3, 0.1)):
+        for order in (1, 2, 3, 4):
+            for name, st, us in (("FisherKPP", R.FisherKPP(1, 3.0, 16, dt, diffusivity=0.01, reactivity=r, order=order), [1.0]),
+                                 ("AllenCahn", R.AllenCahn(1, 3.0, 16, dt, diffusivity=0.01, first_order_coefficient=r, third_order_coefficient=-r, order=order), [1.0]),
+                                 ("AllenCahn", R.AllenCahn(2, 3.0, 8, dt, diffusivity=0.01, first_order_coefficient=r, third_order_coefficient=-r, order=order), [-1.0])):
+                D, N = st.num_spatial_dims, st.num_points
+                u = np.stack([np.full((N,) * D, v) for v in us])
+                run.case(("equilibrium-growth", name, D, order, r, dt))
+                un = np.asarray(st(jnp.asarray(u)))
+                err = maxabs(un - u)
+                if not err <= 1e-10 * (1 + maxabs(u)):
+                    run.violation({"kind": "equilibrium", "cls": name, "D": D, "order": order, "what": "growth*dt ladder"},
+                                  {"u_star": us, "growth": r, "dt": dt, "err": err})
+
+
 def run(tier: str, seed: int) -> int:
     run_ = Run(PID, tier, seed)
     setup_jax(True)
@@ -173,6 +201,7 @@ def run(tier: str, seed: int) -> int:
     check_mean(run_, ex, jnp, rng, tier)
     check_work(run_, ex, jnp, rng, tier)
     check_equilibria(run_, ex, jnp, rng, tier)
+    check_equilibria_growth(run_, ex, jnp)
     tlc.cleanup_mine()
     run_.rule = ("TLC: MeanOK/EnergyOK/VortOK/Rot3dOK over sums of degree+1 basis functions (trilinear forms), MC_Linear.MeanOK, MC_ETDRK.RowSumOK; "
                  "conformance: one monitored 3-step rollout per (class, form, D, N, order) validated by TLC (Trace_Monitor), physical-space work on "
